@@ -1,4 +1,135 @@
-import FsDb.Spec.Iso
-/-! # C03 (theorems under construction) -/
+import FsDb.Proofs.Refine
+import FsDb.Proofs.SpecInv
+/-!
+# C03 — Commit is all-or-nothing and fails exactly on a write-write conflict
+
+Stated on the specification; `Refine.run` (C02_refinement) carries it to the concrete model.
+-/
 namespace FsDb.C03
+open FsDb Spec
+
+/-- the committed value of a key (`none`: absent or deleted) -/
+def valueOf (s : State) (k : Key) : Option Nat := (committed s k).bind (·.val)
+
+theorem mem_written {s : State} (hs : SInv s) {tx : STx} (htx : tx ∈ s.open_) (k : Key) :
+    k ∈ writtenS s.dom tx.own ↔ (tx.own k).isSome := by
+  unfold writtenS
+  rw [List.mem_filter]
+  constructor
+  · exact fun h => h.2
+  · exact fun h => ⟨hs.ownDom tx htx k h, h⟩
+
+theorem close_committed (s : State) (t : Nat) (k : Key) : committed (Spec.close s t) k = committed s k := rfl
+
+/-- A successful Commit makes the last value the transaction wrote to every key (including
+    deletions) the committed value of those keys — all in one step — and nothing else changes. -/
+theorem C03_commit_ok (s : State) (hs : SInv s) (t : Nat) (tx : STx) (htm : t ≠ mainTx)
+    (hf : find s t = some tx) (hok : (Spec.commit s t).2 = .ok) (k : Key) :
+    valueOf (Spec.commit s t).1 k = match tx.own k with
+      | some v => v.val
+      | none => valueOf s k := by
+  have htx : tx ∈ s.open_ := List.mem_of_find?_eq_some hf
+  unfold Spec.commit at hok ⊢
+  simp only [htm, if_false, hf] at hok ⊢
+  by_cases hc : conflictS (Spec.close s t) tx = true
+  · simp [hc] at hok
+  · simp only [hc, Bool.false_eq_true, if_false]
+    by_cases hem : (writtenS (Spec.close s t).dom tx.own).isEmpty = true
+    · -- the transaction wrote nothing
+      simp only [hem, if_true]
+      have hnil : writtenS s.dom tx.own = [] := by
+        have : writtenS (Spec.close s t).dom tx.own = [] := by simpa using hem
+        exact this
+      have hnone : tx.own k = none := by
+        cases ho : tx.own k with
+        | none => rfl
+        | some v =>
+          have : k ∈ writtenS s.dom tx.own := (mem_written hs htx k).mpr (by simp [ho])
+          rw [hnil] at this; cases this
+      rw [hnone]; rfl
+    · simp only [hem, Bool.false_eq_true, if_false]
+      cases ho : tx.own k with
+      | none => simp [valueOf, committed, publishS, ho, Spec.close]
+      | some v =>
+        have hw : k ∈ writtenS (Spec.close s t).dom tx.own := (mem_written hs htx k).mpr (by simp [ho])
+        simp [valueOf, committed, publishS, ho, hw]
+
+/-- Rollback leaves the committed state exactly as it was and discards the transaction. -/
+theorem C03_rollback_noop (s : State) (t : Nat) :
+    (Spec.rollback s t).1.hist = s.hist ∧ find (Spec.rollback s t).1 t = none := by
+  refine ⟨rfl, ?_⟩
+  unfold find Spec.rollback Spec.close
+  rw [List.find?_eq_none]; intro x hx
+  simpa using (List.mem_filter.mp hx).2
+
+/-- A failed Commit leaves the committed state exactly as it was and discards all the
+    transaction's writes (the transaction is closed: nobody can read them afterwards). -/
+theorem C03_failed_commit_noop (s : State) (t : Nat) (hfail : (Spec.commit s t).2 = .err .txSerialization) :
+    (Spec.commit s t).1.hist = s.hist ∧ find (Spec.commit s t).1 t = none := by
+  unfold Spec.commit at hfail ⊢
+  split at hfail
+  · cases hfail
+  · rename_i tx heq
+    simp only [heq] at hfail ⊢
+    split at hfail
+    · rename_i hc
+      simp only [hc, if_true]
+      refine ⟨rfl, ?_⟩
+      unfold find Spec.close
+      rw [List.find?_eq_none]; intro x hx
+      simpa using (List.mem_filter.mp hx).2
+    · split at hfail <;> cases hfail
+
+/-- Commit of a RepeatableRead/Serializable transaction fails with ErrTxSerialization if and only
+    if some key it wrote has had another value committed since it began. -/
+theorem C03_conflict_iff (s : State) (hs : SInv s) (t : Nat) (tx : STx) (htm : t ≠ mainTx)
+    (hf : find s t = some tx) (hl : tx.level.snapshot = true) :
+    (Spec.commit s t).2 = .err .txSerialization ↔
+      ∃ k v, (tx.own k).isSome ∧ committed s k = some v ∧ v.stamp > tx.beginStamp := by
+  have htx : tx ∈ s.open_ := List.mem_of_find?_eq_some hf
+  have hconf : conflictS (Spec.close s t) tx = true ↔
+      ∃ k v, (tx.own k).isSome ∧ committed s k = some v ∧ v.stamp > tx.beginStamp := by
+    unfold conflictS
+    rw [hl, Bool.true_and, List.any_eq_true]
+    constructor
+    · rintro ⟨k, hk, hc⟩
+      have hk' : k ∈ writtenS s.dom tx.own := hk
+      rw [close_committed] at hc
+      cases hcm : committed s k with
+      | none => simp [hcm] at hc
+      | some v => simp [hcm] at hc; exact ⟨k, v, (mem_written hs htx k).mp hk', hcm, hc⟩
+    · rintro ⟨k, v, ho, hcm, hgt⟩
+      refine ⟨k, (mem_written hs htx k).mpr ho, ?_⟩
+      rw [close_committed, hcm]; simpa using hgt
+  rw [← hconf]
+  unfold Spec.commit
+  simp only [htm, if_false, hf]
+  constructor
+  · intro h
+    split at h
+    · assumption
+    · split at h <;> cases h
+  · intro h; simp [h]
+
+/-- ReadUncommitted / ReadCommitted commits never fail for that reason. -/
+theorem C03_no_conflict_RU_RC (s : State) (t : Nat) (tx : STx) (htm : t ≠ mainTx)
+    (hf : find s t = some tx) (hl : tx.level.snapshot = false) : (Spec.commit s t).2 = .ok := by
+  unfold Spec.commit
+  simp only [htm, if_false, hf]
+  have : conflictS (Spec.close s t) tx = false := by unfold conflictS; rw [hl]; rfl
+  simp only [this, Bool.false_eq_true, if_false]
+  split <;> rfl
+
+/-- the same statements hold for the concrete model's answers (outputs are equal by refinement) -/
+theorem C03_concrete {c : Sys} {s : State} (h : R c s) (t : Nat) :
+    (c.step (.commit t)).2 = (Spec.commit s t).2 ∧ R (c.step (.commit t)).1 (Spec.commit s t).1 :=
+  Refine.step h (.commit t) rfl
+
+/-- non-vacuity: a two-key commit, a conflicting snapshot commit, a rollback -/
+example :
+    (Spec.run {} [.set 0 "a" 1, .begin 1 .rr, .begin 2 .ser, .set 1 "a" 2, .set 1 "b" 3, .set 2 "a" 4,
+      .commit 1, .get 0 "a", .get 0 "b", .commit 2, .get 0 "a", .begin 3 .rc, .del 3 "a", .rollback 3, .get 0 "a"]).2
+    = [.ok, .ok, .ok, .ok, .ok, .ok, .ok, .val 2, .val 3, .err .txSerialization, .val 2, .ok, .ok, .ok, .val 2] := by
+  decide
+
 end FsDb.C03
